@@ -212,6 +212,8 @@ type Layout struct {
 	SpreadHead  bool   `json:"spread_head"`  // with Spread: the first rule stays on the line of the opening brace, a line break follows every comma
 	GapTab      bool   `json:"gap_tab"`      // a TAB instead of blanks between the element and its annotation
 	EmptyPad    bool   `json:"empty_pad"`    // a blank inside empty containers: `[ ]`, `{ }`
+	EmptyDash   bool   `json:"empty_dash"`   // rules without a note are followed by a dash with nothing behind it: `{..} -`
+	BlockInAnn  bool   `json:"block_in_ann"` // a ### block comment between the rules of an annotation and what follows them
 }
 
 // DefaultLayout is the plain style used by the repository's own examples.
@@ -241,6 +243,8 @@ func RandLayout(rng *rand.Rand) Layout {
 		SpreadHead:  rng.IntN(3) == 0,
 		GapTab:      rng.IntN(6) == 0,
 		EmptyPad:    rng.IntN(4) == 0,
+		EmptyDash:   rng.IntN(6) == 0,
+		BlockInAnn:  rng.IntN(8) == 0,
 	}
 	return l
 }
@@ -410,6 +414,12 @@ func (p *printer) annotation(n *Node, level int) {
 	body := ""
 	if n.HasRules || len(n.Rules) > 0 {
 		body = p.ruleObject(n.Rules, level, p.l.Multi && p.l.Spread)
+		if p.l.BlockInAnn && !p.l.Multi { // user comments are not part of the /* */ form
+			body += " ### c ###"
+		}
+		if n.Note == "" && p.l.EmptyDash {
+			body += []string{" -", " - ", "-"}[len(n.Rules)%3]
+		}
 		if n.Note != "" {
 			switch {
 			case p.l.DashStyle == 1:
